@@ -581,19 +581,27 @@ class HybridLoad:
                 # Currently the exact times of the heating and cooling peaks are not stored. If further work is done
                 # this default can be made to be more accurate.
                 if ipf[i]:
+                    # The cooling peak ends and the heating peak starts at noon of the common peak day. A cooling
+                    # peak that would start before hour 0 (long peak on the very first day) starts at 0+ instead and
+                    # the heating peak follows it, so that every peak keeps its own duration.
+                    noon_peak_day = first_month_hour(i, self.years) + self.monthly_peak_cl_day[i] * HRS_IN_DAY + 12
+                    cooling_peak_start = noon_peak_day
+                    heating_peak_start = noon_peak_day
+                    if self.monthly_peak_cl[i] > 0:
+                        cooling_peak_start = noon_peak_day - self.monthly_peak_cl_duration[i]
+                        if cooling_peak_start < 0.0:
+                            cooling_peak_start = 1.0e-6
+                        heating_peak_start = cooling_peak_start + self.monthly_peak_cl_duration[i]
                     # monthly average conditions before cooling peak
                     if self.monthly_peak_cl[i] > 0 and ipf[i]:
                         # last_avg_hour = first_hour_cooling_peak - 1 JDS corrected 20200604
-                        last_avg_hour = first_hour_cooling_peak - self.monthly_peak_cl_duration[i] / 2
+                        last_avg_hour = cooling_peak_start
                         self.load = np.append(self.load, month_rate)
                         self.hour = np.append(self.hour, last_avg_hour)
                         # cooling peak
                         # self.load = np.append(self.load, -self.monthly_peak_cl[i]) JDS corrected 20200604
                         self.load = np.append(self.load, self.monthly_peak_cl[i])
-                        self.hour = np.append(
-                            self.hour,
-                            last_hour_cooling_peak - self.monthly_peak_cl_duration[i] / 2,
-                        )
+                        self.hour = np.append(self.hour, heating_peak_start)
 
                         if last_avg_hour - peak_last_avg_hour < 0.0:
                             warnings.warn(warn_msg_neg_timestep)
@@ -602,17 +610,14 @@ class HybridLoad:
                     if self.monthly_peak_hl[i] > 0 and ipf[i]:
                         if not self.monthly_peak_cl[i] > 0:
                             # no cooling peak precedes the heating peak: monthly average conditions up to noon
-                            last_avg_hour = first_hour_heating_peak + self.monthly_peak_hl_duration[i] / 2
+                            last_avg_hour = heating_peak_start
                             self.load = np.append(self.load, month_rate)
                             self.hour = np.append(self.hour, last_avg_hour)
                         # heating peak
                         # self.load = np.append(self.load, self.monthly_peak_hl[i]) JDS corrected 20200604
 
                         self.load = np.append(self.load, -self.monthly_peak_hl[i])
-                        self.hour = np.append(
-                            self.hour,
-                            last_hour_heating_peak + self.monthly_peak_hl_duration[i] / 2,
-                        )
+                        self.hour = np.append(self.hour, heating_peak_start + self.monthly_peak_hl_duration[i])
 
                         if last_avg_hour - peak_last_avg_hour < 0.0:
                             warnings.warn(warn_msg_neg_timestep)
